@@ -88,6 +88,8 @@ def gen_base(rng, kind, bs, nmsg):
             lay.append((rng.choice([32, 64, 64, 96, 128]), True))
             if rng.random() < 0.2:
                 lay.append((32, False))
+        elif kind == "dense":         # the shortest dated lines: thousands of messages inside one block
+            lay.append((rng.randrange(21, 27), True))
         elif kind == "safe":          # long lines are still short relative to the block
             hi = max(40, min(400, bs // 16))
             lay.append((rng.randrange(21, hi), True))
@@ -367,7 +369,10 @@ def grows_w(vals, unit):
     if len(vals) < 3:
         return False
     a, b, c = vals[-3:]
-    return (c - b) > 4 * unit + SLACK and (c - b) >= 2 * (b - a)
+    # under a window the marks are not monotone in the size (which probes land where depends on the layout): a step
+    # down followed by a step up of the same order is not growth, so the two steps together must exceed two
+    # allowances as well (e.g. 52, 59, 57, 64 at x1 x4 x16 x64, exactly the model's prediction: +12 over six doublings)
+    return (c - b) > 4 * unit + SLACK and (c - b) >= 2 * (b - a) and (c - a) > 2 * (4 * unit) + SLACK
 
 
 # ------------------------------------------------------------------ the check
@@ -797,6 +802,12 @@ def run(ctx):
     # plain (and one streamed) files whose lines span three or more blocks, edges avoided
     for lbs, cont in ((4096, "plain"), (4096, "plain"), (1024, "plain"), (256, "plain"), (4096, "gz")) + (() if quick else ((16384, "plain"), (512, "plain"), (4096, "bz2"))):
         configs.append(dict(kind="longline", bs=lbs, container=cont, avoid_edges=True, base=gen_base(rng, "longline", lbs, 150)))
+
+    # thousands of messages inside one block (the shortest dated lines at the default block size and above): every
+    # per-call or per-block limit of the release path has to keep up with that many messages
+    for dbs, cont, nblk in ((65536, "plain", 1.5), (65536, "gz", 1.5), (262144, "plain", 0.4)) + (() if quick else ((65536, "bz2", 1.5), (131072, "gz", 0.8))):
+        if cont in containers:
+            configs.append(dict(kind="dense", bs=dbs, container=cont, avoid_edges=True, base=gen_base(rng, "dense", dbs, int(nblk * dbs / 23.5))))
 
     jobs = []
     for ci, cf in enumerate(configs):
